@@ -3,6 +3,8 @@ import OrsoVerif.Drv.C02
 import OrsoVerif.Drv.C03
 import OrsoVerif.Drv.C04
 import OrsoVerif.Drv.C05
+import OrsoVerif.Drv.C06
+import OrsoVerif.Drv.C09
 import OrsoVerif.Drv.C10
 
 open Wire
@@ -13,6 +15,8 @@ def dispatch (prop op : String) (args : List PyVal) : Option (List PyVal) :=
   | "C03" => Drv.C03.handle op args
   | "C04" => Drv.C04.handle op args
   | "C05" => Drv.C05.handle op args
+  | "C06" => Drv.C06.handle op args
+  | "C09" => Drv.C09.handle op args
   | "C10" => Drv.C10.handle op args
   | _ => none
 
